@@ -287,7 +287,7 @@ def entry_key(e) -> str | None:
     return None
 
 
-def match_entries(entries, calls, t0, t1, container_owner):
+def match_entries(entries, calls, t0, t1):
     """Judge the entries of one journal activation against the calls with t0 < start, end <= t1.
 
     Reading of the statement: every completed call has exactly one entry of its kind on its object;
@@ -304,9 +304,9 @@ def match_entries(entries, calls, t0, t1, container_owner):
         key, _, self_id, ts, te, done = c
         if ts <= t0 or te is None or te > t1:
             continue
-        tid = self_id
-        if key in CONTAINER_KEYS:
-            tid = container_owner.get(self_id)  # None = unknown container: any object id matches
+        # the recorded object of a container call is the container's owner, which has no public
+        # accessor from the container: any object id matches (None)
+        tid = None if key in CONTAINER_KEYS else self_id
         if done:
             completed.append([key, tid, ts, te, False])
         else:
@@ -364,12 +364,12 @@ def match_entries(entries, calls, t0, t1, container_owner):
 # results, normalised so that two runs in different worlds are comparable
 # =============================================================================================
 _ADDR = re.compile(r"0x[0-9a-fA-F]{6,}")
-_ANON = re.compile(r"anonymous:\d+")
-_ID = re.compile(r"\bid=\d{6,}")
+_ANON = re.compile(r"(anonymous\w*):\d+")
+_ID = re.compile(r"\b\d{9,}\b")  # id() values; no number of the workload has nine digits
 
 
 def norm_text(s: str) -> str:
-    return _ID.sub("id=?", _ANON.sub("anonymous:?", _ADDR.sub("0x?", s)))
+    return _ID.sub("<id>", _ANON.sub(r"\1:<id>", _ADDR.sub("0x<addr>", s)))
 
 
 def raise_line(exc):
@@ -436,6 +436,7 @@ class Runner:
         self.last_exc = None
         self.pending = None          # [exception object, levels still to unwind, resume index]
         self.last_closed = None
+        self.armed = 0
         self.closed: list = []       # (journal, number of entries when it was left)
         self.active: list = []
 
@@ -447,20 +448,6 @@ class Runner:
         self.obs.results.append(norm_result(self.w, res))
         if i in self.checkpoint_at:
             self.obs.checkpoints[i] = self.snap(self.w)
-
-    def container_owner(self) -> dict:
-        """id(container) -> id(owner) through public accessors only."""
-        m = {}
-        for g in self.w.graphs:
-            try:
-                m[id(g.inputs)] = m[id(g.outputs)] = m[id(g.initializers)] = id(g)
-            except Exception:  # noqa: BLE001
-                pass
-        for n in self.w.nodes:
-            m[id(n.attributes)] = id(n)
-        for f in self.w.functions:
-            m[id(f.attributes)] = id(f)
-        return m
 
     # -- journal boundaries
     def on_exit(self, j, pre, prev_current, start_len, t0, how, depth):
@@ -477,7 +464,7 @@ class Runner:
                                  f"get_current_journal() after leaving ({how}, depth {depth}) is not the journal that was current before entering"))
         entries = list(j.entries)[start_len:]
         t1 = self.log.clock
-        problems, stats = match_entries(entries, self.log.calls, t0, t1, self.container_owner())
+        problems, stats = match_entries(entries, self.log.calls, t0, t1)
         if depth == 1:
             for c in self.log.calls:
                 if c[3] > t0 and c[4] is not None and c[4] <= t1:
@@ -497,6 +484,8 @@ class Runner:
         items, n = self.items, len(self.items)
         while i < n:
             it = items[i]
+            if it[0] in ("J_enter", "J_exit"):
+                self.armed = 0
             if it[0] == "J_enter" and self.journaled:
                 self.obs.results.append(("marker",))
                 if depth >= MAX_DEPTH:
@@ -541,7 +530,13 @@ class Runner:
                 mode, levels = it[1], max(1, min(int(it[2]), depth))
                 if mode == "normal":
                     return i + 1
-                if mode == "op_exc" and self.last_exc is not None:
+                if mode == "op_exc" and self.last_exc is None:
+                    # leave with the exception of the next IR call of this block that raises
+                    # (cancelled by the next marker)
+                    self.armed = levels
+                    i += 1
+                    continue
+                if mode == "op_exc":
                     exc = self.last_exc
                     self.obs.add("left_by_rethrown_ir_exception")
                 else:
@@ -554,6 +549,13 @@ class Runner:
                     self.obs.results.append(("marker",))
                 else:
                     self.step(i)
+                    if self.armed and self.last_exc is not None and depth > 0:
+                        exc, levels = self.last_exc, max(1, min(self.armed, depth))
+                        self.armed = 0
+                        self.last_exc = None
+                        self.obs.add("left_by_rethrown_ir_exception")
+                        self.pending = [exc, levels, i + 1]
+                        raise exc
                 i += 1
         return i
 
